@@ -10,7 +10,7 @@ EXPL = ('Shape clauses of C11 only: the annotation payload serializer matches th
         'before delivery; the iteration follows item_next from the seek point, checks the tag of every delivered chunk and hands the '
         'callback the chunk just read; the index entry recorded for an annotation carries its timestamp and its chunk offset; INDEX is '
         'followed by SUMMARY in the time-series writer.')
-NOT_DECIDED = 'Seek completeness for equal timestamps straddling index chunks and ordering: index search over runtime data.'
+NOT_DECIDED = ('Which index entry the seek chooses for equal timestamps and ordering are value semantics of a search over runtime data: not decided by a rule (the defect found there was repaired after a replay sweep).')
 
 
 def run(ctx, sess):
